@@ -531,3 +531,96 @@ Proof.
   destruct (q_delete path path_prims sa (x :: r)) as [rs| |] eqn:E; cbn [omap]; try (triv H).
   rewrite loc_enc. split; [reflexivity|]. apply RS_set_rows; [exact H|]. eapply q_delete_good; [apply (rs_good _ _ H) | exact E].
 Qed.
+
+(* ------------------------------------------------------------------ DirectoryNamespace *)
+
+Lemma dir_describe_ref : forall sm sa id, RS sm sa -> rel (dir_describe str sm id) (dir_describe path sa id).
+Proof.
+  intros sm sa id H. unfold dir_describe. destruct id as [|n [|y r]]; try (triv H).
+  rewrite (rs_disk _ _ H).
+  destruct (d_exists_under _ (dsk sa)); cbn [negb]; [|triv H].
+  destruct (d_has_dataset _ (dsk sa)); [triv H|].
+  destruct (d_has_reserved _ (dsk sa)); triv H.
+Qed.
+
+Lemma dir_exists_ref : forall sm sa id, RS sm sa -> rel (dir_exists str sm id) (dir_exists path sa id).
+Proof.
+  intros sm sa id H. unfold dir_exists. destruct id as [|n [|y r]]; try (triv H).
+  rewrite (rs_disk _ _ H). destruct (d_exists_under _ (dsk sa)); triv H.
+Qed.
+
+Lemma step_ref : forall mode sm sa o, RS sm sa -> storable_op o = true ->
+  rel (step string_prims mode sm o) (step path_prims mode sa o).
+Proof.
+  intros mode sm sa o H Ho. unfold storable_op in Ho.
+  destruct o as [id|id|id|id|id tok lim|id|id|id|id|id|id tok lim|id loc|id]; cbn [op_id] in Ho; cbn [step].
+  - (* create_namespace *)
+    destruct (negb (mode =? 0)); [apply m_create_ns_ref; assumption|]. destruct id; triv H.
+  - destruct (negb (mode =? 0)); [apply m_drop_ns_ref; assumption|]. destruct id; triv H.
+  - destruct (negb (mode =? 0)); [apply m_describe_ns_ref; assumption|]. destruct id; triv H.
+  - destruct (negb (mode =? 0)); [apply m_ns_exists_ref; assumption|]. destruct id; triv H.
+  - destruct (negb (mode =? 0)); [apply m_list_ref; assumption|]. destruct id; triv H.
+  - (* create_empty_table *)
+    destruct (negb (mode =? 0)); [apply m_create_empty_table_ref; assumption|].
+    destruct id as [|n [|y r]]; try (triv H).
+    rewrite (rs_disk _ _ H). split; [reflexivity|]. apply RS_set_disk. exact H.
+  - (* create_table *)
+    destruct (negb (mode =? 0)); [apply m_create_table_ref; assumption|].
+    destruct id as [|n [|y r]]; try (triv H).
+    rewrite (rs_disk _ _ H). destruct (d_has_dataset _ (dsk sa)); [triv H|].
+    split; [reflexivity|]. apply RS_set_disk. exact H.
+  - (* drop_table *)
+    destruct (negb (mode =? 0)); [apply m_drop_table_ref; assumption|].
+    destruct id as [|n [|y r]]; try (triv H).
+    rewrite (rs_disk _ _ H). destruct (d_remove_under _ (dsk sa)); [|triv H].
+    split; [reflexivity|]. apply RS_set_disk. exact H.
+  - (* table_exists *)
+    destruct (negb (mode =? 0)); [|apply dir_exists_ref; exact H].
+    pose proof (m_table_exists_ref sm sa id H Ho) as [Ea Es].
+    destruct (m_table_exists str string_prims sm id) as [a1 s1].
+    destruct (m_table_exists path path_prims sa id) as [a2 s2]. cbn [fst snd] in Ea, Es. subst a2.
+    destruct (is_ok a1); [split; [reflexivity | exact Es]|].
+    destruct (negb (mode =? 1) && negb match a1 with APanic => true | _ => false end);
+      [apply dir_exists_ref; exact H | split; [reflexivity | exact Es]].
+  - (* describe_table *)
+    destruct (negb (mode =? 0)); [|apply dir_describe_ref; exact H].
+    pose proof (m_describe_table_ref sm sa id H Ho) as [Ea Es].
+    destruct (m_describe_table str string_prims sm id) as [a1 s1].
+    destruct (m_describe_table path path_prims sa id) as [a2 s2]. cbn [fst snd] in Ea, Es. subst a2.
+    destruct (is_ok a1); [split; [reflexivity | exact Es]|].
+    destruct (negb (mode =? 1) && (length id =? 1)%nat && negb match a1 with APanic => true | _ => false end);
+      [apply dir_describe_ref; exact H | split; [reflexivity | exact Es]].
+  - (* list_tables *)
+    destruct id as [|x r].
+    + destruct (negb (mode =? 0) && negb (negb (mode =? 1))); [apply m_list_ref; assumption|].
+      destruct (negb (mode =? 0)).
+      * rewrite (rs_dead _ _ H). destruct (dead sa); [triv H|].
+        rewrite (q_children_ref sm sa H true [] eq_refl).
+        destruct (q_children path path_prims sa true []) as [mt| |]; try (triv H).
+        cbn [p_root_locs string_prims path_prims]. rewrite (rs_rows _ _ H), (root_locs_ref _ (rs_good _ _ H)), (rs_disk _ _ H).
+        triv H.
+      * rewrite (rs_disk _ _ H). triv H.
+    + destruct (negb (mode =? 0)); [apply m_list_ref; assumption | triv H].
+  - destruct (negb (mode =? 0)); [apply m_register_ref; assumption | triv H].
+  - destruct (negb (mode =? 0)); [apply m_deregister_ref; assumption | triv H].
+Qed.
+
+(* ------------------------------------------------------------------ runs *)
+
+Lemma run_ref : forall mode ops sm sa, RS sm sa -> forallb storable_op ops = true ->
+  fst (run string_prims mode sm ops) = fst (run path_prims mode sa ops)
+  /\ RS (snd (run string_prims mode sm ops)) (snd (run path_prims mode sa ops)).
+Proof.
+  intros mode ops. induction ops as [|o r IH]; intros sm sa H Hs; [split; [reflexivity | exact H]|].
+  cbn [forallb] in Hs. apply andb_true_iff in Hs as [Ho Hr]. cbn [run].
+  pose proof (step_ref mode sm sa o H Ho) as [Ea Es].
+  destruct (step string_prims mode sm o) as [a1 s1]. destruct (step path_prims mode sa o) as [a2 s2].
+  cbn [fst snd] in Ea, Es. subst a2.
+  pose proof (IH (bump s1) (bump s2) (RS_bump _ _ Es) Hr) as [Er Esr].
+  destruct (run string_prims mode (bump s1) r) as [as1 t1]. destruct (run path_prims mode (bump s2) r) as [as2 t2].
+  cbn [fst snd] in *. subst as2. split; [reflexivity | exact Esr].
+Qed.
+
+(* Every answer of the implementation model, error kinds included, is the answer of the path-keyed map. *)
+Theorem impl_refines_map : forall mode ops, forallb storable_op ops = true -> impl_run mode ops = map_run mode ops.
+Proof. intros mode ops Hs. unfold impl_run, map_run. apply (run_ref mode ops init init RS_init Hs). Qed.
